@@ -150,10 +150,10 @@ let parse_op (line : string) : op =
   match tokenize line with
   | "varmap" :: rest -> let m, _ = parse_zmap rest in OpVarMap m
   | "setmap" :: x :: rest -> let m, _ = parse_zmap rest in OpSetMap (ni x, m)
-  | ("permapi" | "permapiom") :: inp :: c :: rest ->
+  | (("permapi" | "permapiom" | "perfilter" | "perfilterom") as w) :: inp :: c :: rest ->
     let f, rest = parse_bindfn rest in
     if rest <> [] then fail "trailing tokens after permapi";
-    OpPerMapi (ni inp, (if c = "-" then None else Some (parse_cutoff c)), f)
+    OpPerMapi (ni inp, (if c = "-" then None else Some (parse_cutoff c)), f, (w = "perfilter" || w = "perfilterom"))
   | ["var"; v] -> OpVar (zi v)
   | ["pair"; a; b] -> OpPair (zi a, zi b)
   | ["const"; v] -> OpConst (zi v)
